@@ -25,17 +25,15 @@ theorem needToRefresh_eq (b : Int) : Snapshots_NeedToRefresh b = isSnapPeriod b 
 
 theorem snapBlockNo_nonneg (b : Int) (hb : 0 ≤ b) : 0 ≤ snapBlockNo b := by
   rw [snapBlockNo_eq b hb]
-  simp only [getElectionPeriod]
-  by_cases h : b < 3 * 100
-  · simp [h]
-  · simp only [h, if_false]; omega
+  by_cases h : b < 3 * getElectionPeriod
+  · rw [if_pos h]; omega
+  · rw [if_neg h]; simp only [getElectionPeriod] at *; omega
 
 theorem snapBlockNo_le (b : Int) (hb : 0 ≤ b) : snapBlockNo b ≤ b := by
   rw [snapBlockNo_eq b hb]
-  simp only [getElectionPeriod]
-  by_cases h : b < 3 * 100
-  · simp only [h, if_true]; omega
-  · simp only [h, if_false]; omega
+  by_cases h : b < 3 * getElectionPeriod
+  · rw [if_pos h]; omega
+  · rw [if_neg h]; simp only [getElectionPeriod] at *; omega
 
 /-- Between election boundaries the reference block does not move. -/
 theorem snapBlockNo_succ (b : Int) (hb : 0 ≤ b) (h : isSnapPeriod (b + 1) = false) :
@@ -43,18 +41,20 @@ theorem snapBlockNo_succ (b : Int) (hb : 0 ≤ b) (h : isSnapPeriod (b + 1) = fa
   have h' : ¬ ((b + 1) % getElectionPeriod = 0) := by
     intro e; rw [(isSnapPeriod_iff (b + 1) (by omega)).2 e] at h; cases h
   rw [snapBlockNo_eq b hb, snapBlockNo_eq (b + 1) (by omega)]
-  simp only [getElectionPeriod] at *
-  by_cases h1 : b + 1 < 3 * 100 <;> by_cases h2 : b < 3 * 100 <;> simp only [h1, h2, if_true, if_false] <;> omega
+  by_cases h1 : b + 1 < 3 * getElectionPeriod <;> by_cases h2 : b < 3 * getElectionPeriod
+  · rw [if_pos h1, if_pos h2]
+  · rw [if_pos h1, if_neg h2]; simp only [getElectionPeriod] at *; omega
+  · rw [if_neg h1, if_pos h2]; simp only [getElectionPeriod] at *; omega
+  · rw [if_neg h1, if_neg h2]; simp only [getElectionPeriod] at *; omega
 
 /-- At a boundary `n` (from the third on) the reference block is the previous boundary. -/
 theorem snapBlockNo_boundary (n : Int) (hn : 0 ≤ n) (h : isSnapPeriod n = true) (h3 : ¬ snapBlockNo n = 0) :
     snapBlockNo n = n - getElectionPeriod := by
   have h' := (isSnapPeriod_iff n hn).1 h
   rw [snapBlockNo_eq n hn] at h3 ⊢
-  simp only [getElectionPeriod] at *
-  by_cases h1 : n < 3 * 100
-  · simp only [h1, if_true] at h3; exact absurd rfl h3
-  · simp only [h1, if_false]; omega
+  by_cases h1 : n < 3 * getElectionPeriod
+  · rw [if_pos h1] at h3; exact absurd rfl h3
+  · rw [if_neg h1]; simp only [getElectionPeriod] at *; omega
 
 /-! ### The snapshot map -/
 
@@ -180,5 +180,196 @@ theorem Inv.init (genesis : List String) (hg : RankOk genesis) : Inv (Node.init 
   · simp only [Node.init, boot, updateCluster, getCurrent, hs]
     have : genesis.all idOk = true := hg
     simp [this]
+
+/-- `AddSnapshot` for block `N` connected on top of a chain with rankings `ranks` (blocks `0..N-1`). -/
+theorem addSnapshot_spec (s : Snaps) (ranks : List (List String)) (rank : List String) (N : Int)
+    (hN : 1 ≤ N) (hlen : ranks.length = N.toNat)
+    (hok : ∀ l ∈ ranks, RankOk l) (hrank : RankOk rank) (hg : RankOk s.genesis)
+    (hkeys : ∀ k l, lookup s.snaps k = some l → isSnapPeriod k = true ∧ 0 < k)
+    (hent : ∀ k l, lookup s.snaps k = some l → k ≤ N - 1 → ranks[k.toNat]? = some l)
+    (hcur : some s.members = specSet s.genesis ranks (N - 1)) (hsize : s.size = s.members.length) :
+    let s' := (addSnapshot s N (some rank) (loadOf (ranks ++ [rank]) N)).1
+    (∀ k l, lookup s'.snaps k = some l → isSnapPeriod k = true ∧ 0 < k)
+    ∧ (∀ k l, lookup s'.snaps k = some l → k ≤ N → (ranks ++ [rank])[k.toNat]? = some l)
+    ∧ some s'.members = specSet s.genesis (ranks ++ [rank]) N
+    ∧ s'.size = s'.members.length ∧ s'.genesis = s.genesis := by
+  -- the state after the (never taken in /repo) reset
+  have hs0 : ∃ s0 : Snaps, (if s.maxRef > N then { s with snaps := [] } else s) = s0
+      ∧ s0.genesis = s.genesis ∧ s0.members = s.members ∧ s0.size = s.size
+      ∧ (∀ k l, lookup s0.snaps k = some l → lookup s.snaps k = some l) := by
+    by_cases hm : s.maxRef > N
+    · exact ⟨{ s with snaps := [] }, by simp [hm], rfl, rfl, rfl, by intro k l h; simp [lookup] at h⟩
+    · exact ⟨s, by simp [hm], rfl, rfl, rfl, fun _ _ h => h⟩
+  obtain ⟨s0, hs0e, hg0, hm0, hz0, hsub⟩ := hs0
+  have hkeys0 : ∀ k l, lookup s0.snaps k = some l → isSnapPeriod k = true ∧ 0 < k :=
+    fun k l h => hkeys k l (hsub k l h)
+  have hent0 : ∀ k l, lookup s0.snaps k = some l → k ≤ N - 1 → ranks[k.toNat]? = some l :=
+    fun k l h => hent k l (hsub k l h)
+  have hpre : ∀ k : Int, 0 ≤ k → k ≤ N - 1 → (ranks ++ [rank])[k.toNat]? = ranks[k.toNat]? := by
+    intro k h0 hk
+    exact List.getElem?_append_left (by omega)
+  have hlast : (ranks ++ [rank])[N.toNat]? = some rank := by rw [← hlen]; simp
+  have hN0 : (N == 0) = false := by simp; omega
+  simp only [addSnapshot, hs0e, hN0, Bool.or_false]
+  by_cases hp : isSnapPeriod N = true
+  · -- an election boundary
+    simp only [hp, Bool.not_true, Bool.false_eq_true, if_false, needToRefresh_eq, if_true]
+    have hent1 : ∀ k l, lookup (insert s0.snaps N rank) k = some l → k ≤ N → (ranks ++ [rank])[k.toNat]? = some l := by
+      intro k l h hk
+      rw [lookup_insert] at h
+      by_cases hkN : k = N
+      · subst hkN; simp at h; subst h; exact hlast
+      · simp only [hkN, if_false] at h
+        have := hkeys0 k l h
+        rw [hpre k (by omega) (by omega)]
+        exact hent0 k l h (by omega)
+    have hok' : ∀ l ∈ ranks ++ [rank], RankOk l := by
+      intro l hl
+      rcases List.mem_append.1 hl with h | h
+      · exact hok l h
+      · simp at h; subst h; exact hrank
+    have hu := updateCluster_spec { s0 with snaps := insert s0.snaps N rank } (ranks ++ [rank]) N (by omega)
+      (by simp [hlen]) hok' (by simpa [hg0] using hg) hent1
+    simp only at hu
+    obtain ⟨hu1, hu2, hu3, hu4⟩ := hu
+    refine ⟨?_, ?_, ?_, hu2, ?_⟩
+    · intro k l h
+      have h := lookup_gc _ _ _ _ h
+      rw [hu3, lookup_insert] at h
+      by_cases hkN : k = N
+      · subst hkN; exact ⟨hp, by omega⟩
+      · simp only [hkN, if_false] at h; exact hkeys0 k l h
+    · intro k l h hk
+      have h := lookup_gc _ _ _ _ h
+      rw [hu3] at h
+      exact hent1 k l h hk
+    · simpa [hg0] using hu1
+    · simpa [hg0] using hu4
+  · -- between boundaries nothing changes
+    have hp' : isSnapPeriod N = false := by simpa using hp
+    simp only [hp', Bool.not_false, if_true]
+    refine ⟨hkeys0, ?_, ?_, by rw [hz0, hm0]; exact hsize, hg0⟩
+    · intro k l h hk
+      have hk' := hkeys0 k l h
+      by_cases hkN : k = N
+      · subst hkN; rw [hp'] at hk'; cases hk'.1
+      · rw [hpre k (by omega) (by omega)]; exact hent0 k l h (by omega)
+    · have hsucc := snapBlockNo_succ (N - 1) (by omega) (by simpa using hp')
+      have e : N - 1 + 1 = N := by omega
+      rw [e] at hsucc
+      rw [hm0, hcur]
+      simp only [specSet, hsucc]
+      by_cases hz : snapBlockNo (N - 1) = 0
+      · simp [hz]
+      · simp only [hz, if_false]
+        have h1 := snapBlockNo_le (N - 1) (by omega)
+        have h0 := snapBlockNo_nonneg (N - 1) (by omega)
+        exact (hpre _ h0 h1).symm
+
+/-- What events carry must be decodable rankings (otherwise `Cluster.Update` fails and the old set stays). -/
+def EvOk : Ev → Prop
+  | .offer _ _ rank => RankOk rank
+  | _ => True
+
+theorem Inv.step {Key : Type} (c : Crypto Key) (iv : Int) (n : Node) (ev : Ev) (hev : EvOk ev) (h : Inv n) :
+    Inv (n.step c iv ev) ∧ (n.step c iv ev).sn.genesis = n.sn.genesis := by
+  cases ev with
+  | offer now b rank =>
+    simp only [Node.step]
+    split
+    · rename_i hc
+      simp only [Bool.and_eq_true, beq_iff_eq] at hc
+      have hno : b.no = n.best + 1 := hc.1.1
+      have hb := h.best_nonneg
+      have hs := addSnapshot_spec n.sn n.ranks rank b.no (by omega) (by rw [h.len, hno]; omega) h.ranks_ok hev h.gen_ok
+        h.keys (by intro k l hl hk; exact h.entries k l hl (by omega))
+        (by have e : b.no - 1 = n.best := by omega
+            rw [e]; exact h.current) h.size_eq
+      simp only at hs
+      obtain ⟨k1, k2, k3, k4, k5⟩ := hs
+      refine ⟨⟨by simp; omega, ?_, ?_, by simpa [k5] using h.gen_ok, k1, k2, by simpa [k5] using k3, k4⟩, k5⟩
+      · simp [h.len, hno]; omega
+      · intro l hl
+        rcases List.mem_append.1 hl with h' | h'
+        · exact h.ranks_ok l h'
+        · simp at h'; subst h'; exact hev
+    · exact ⟨h, rfl⟩
+  | rollback to =>
+    simp only [Node.step]
+    split
+    · rename_i hc
+      simp only [Bool.and_eq_true, decide_eq_true_eq] at hc
+      have hb := h.best_nonneg
+      have hlen' : (n.ranks.take (to.toNat + 1)).length = to.toNat + 1 := by
+        rw [List.length_take, h.len]; omega
+      have hok' : ∀ l ∈ n.ranks.take (to.toNat + 1), RankOk l := fun l hl => h.ranks_ok l (List.mem_of_mem_take hl)
+      have hent' : ∀ k l, lookup n.sn.snaps k = some l → k ≤ to → (n.ranks.take (to.toNat + 1))[k.toNat]? = some l := by
+        intro k l hl hk
+        have hk0 := (h.keys k l hl).2
+        have : k.toNat < to.toNat + 1 := by omega
+        simp only [List.getElem?_take, this, if_true]
+        exact h.entries k l hl (by omega)
+      have hu := updateCluster_spec n.sn (n.ranks.take (to.toNat + 1)) to hc.1 hlen' hok' h.gen_ok hent'
+      simp only at hu
+      obtain ⟨hu1, hu2, hu3, hu4⟩ := hu
+      refine ⟨⟨hc.1, hlen', hok', by simpa [hu4] using h.gen_ok, ?_, ?_, by simpa [hu4] using hu1, hu2⟩, hu4⟩
+      · intro k l hl; rw [hu3] at hl; exact h.keys k l hl
+      · intro k l hl hk; rw [hu3] at hl; exact hent' k l hl hk
+    · exact ⟨h, rfl⟩
+  | restart =>
+    simp only [Node.step, boot]
+    have hu := updateCluster_spec { snaps := [], maxRef := 0, genesis := n.sn.genesis, members := [], size := n.sn.genesis.length }
+      n.ranks n.best h.best_nonneg h.len h.ranks_ok h.gen_ok (by intro k l hl; simp [lookup] at hl)
+    simp only at hu
+    obtain ⟨hu1, hu2, hu3, hu4⟩ := hu
+    refine ⟨⟨h.best_nonneg, h.len, h.ranks_ok, by simpa [hu4] using h.gen_ok, ?_, ?_, by simpa [hu4] using hu1, hu2⟩, hu4⟩
+    · intro k l hl; rw [hu3] at hl; simp [lookup] at hl
+    · intro k l hl; rw [hu3] at hl; simp [lookup] at hl
+
+/-- What the log records about an accepted block: it passed the three checks with the list then in force, and that
+list was the one specified for the chain the block extended. -/
+def LogOk {Key : Type} (c : Crypto Key) (iv : Int) (genesis : List String) (a : Accepted) : Prop :=
+  accept c iv a.ids a.nowNs none a.blk.hdr a.blk.no a.blk.tsNs = true
+    ∧ some a.ids = specSet genesis a.ranks (a.blk.no - 1)
+    ∧ a.ranks.length = a.blk.no.toNat ∧ 1 ≤ a.blk.no
+
+theorem log_step {Key : Type} (c : Crypto Key) (iv : Int) (n : Node) (ev : Ev) (h : Inv n)
+    (hl : ∀ a ∈ n.log, LogOk c iv n.sn.genesis a) : ∀ a ∈ (n.step c iv ev).log, LogOk c iv n.sn.genesis a := by
+  cases ev with
+  | offer now b rank =>
+    simp only [Node.step]
+    split
+    · rename_i hc
+      simp only [Bool.and_eq_true, beq_iff_eq] at hc
+      intro a ha
+      simp only [List.mem_cons] at ha
+      rcases ha with rfl | ha
+      · have hno : b.no = n.best + 1 := hc.1.1
+        have hb := h.best_nonneg
+        refine ⟨hc.2, ?_, ?_, ?_⟩
+        · have e : b.no - 1 = n.best := by omega
+          simp only [e]; exact h.current
+        · simp only [h.len, hno]; omega
+        · simp only; omega
+      · exact hl a ha
+    · exact hl
+  | rollback to =>
+    simp only [Node.step]
+    split <;> exact hl
+  | restart => exact hl
+
+theorem run_inv {Key : Type} (c : Crypto Key) (iv : Int) (evs : List Ev) : ∀ (n : Node), Inv n →
+    (∀ ev ∈ evs, EvOk ev) → (∀ a ∈ n.log, LogOk c iv n.sn.genesis a) →
+    Inv (n.run c iv evs) ∧ (n.run c iv evs).sn.genesis = n.sn.genesis
+      ∧ ∀ a ∈ (n.run c iv evs).log, LogOk c iv n.sn.genesis a := by
+  induction evs with
+  | nil => intro n h _ hl; exact ⟨h, rfl, hl⟩
+  | cons ev rest ih =>
+    intro n h hev hl
+    have hs := Inv.step c iv n ev (hev ev (by simp)) h
+    have hl' := log_step c iv n ev h hl
+    have := ih (n.step c iv ev) hs.1 (fun e he => hev e (by simp [he])) (by rw [hs.2]; exact hl')
+    simp only [Node.run, List.foldl_cons] at this ⊢
+    exact ⟨this.1, by rw [this.2.1, hs.2], by rw [← hs.2]; exact this.2.2⟩
 
 end Aergo.Producer
